@@ -99,6 +99,15 @@ def check_split(case, ctx):
         kind = "knot"
         ctx.label("parameter-identified-with-a-knot-by-tolerance")
     ctx.label("param-is-knot-of-other-direction", case["where"][0] == "other" and pdim > 1)
+    if case["where"][0] == "decimal" and kind == "in" and len(d["P"]) % 2 == 0:
+        # the split position was made a knot before, by inserting the very same float (a normalising shape stores it rounded to
+        # 18 decimals): the split is then a split at that knot
+        prm, cnt = [None] * pdim, [0] * pdim
+        prm[k], cnt[k] = u, 1
+        operations.insert_knot(obj, prm, cnt)
+        kvs, szs = build.kvs_of(obj), build.sizes_of(obj)
+        kind = "knot"
+        ctx.label("split-at-a-knot-inserted-before-with-the-same-float")
     sampled = _sampled_before(obj, (1 + len(d["P"]) % 2) if case["read"] else 0)
     before = build.snapshot(obj)
     views_before = ([list(p) for p in obj.ctrlpts], list(obj.weights) if obj.rational else None)
